@@ -246,7 +246,9 @@ def read_meta_image_from_fileobj(f: io.BufferedReader) -> Tuple[np.ndarray, Meta
         ):
             meta[key] = np.array(value.split(), dtype=float)
         elif key in ("Orientation", "Rotation", "TransformMatrix"):
-            meta[key] = np.array(value.split(), dtype=float).reshape(3, 3).transpose()
+            matrix = np.array(value.split(), dtype=float)
+            ndim = int(round(matrix.size**0.5))
+            meta[key] = matrix.reshape(ndim, ndim).transpose()
         elif key in ("DimSize", "SequenceID"):
             meta[key] = np.array(value.split(), dtype=int)
         elif key in ("ElementMin", "ElementMax"):
